@@ -19,7 +19,7 @@ CONSTANTS
   IntIdsUsed = {"i1", "m1"}
   ShareNums = {1, 2}
   ShareDen = 4
-  Amts = {3}
+  Amts = {3, 10}
   Family = "curated"
 INVARIANTS NonNegative BooksMatch Conservation ShareExact PaidUp NeverHalts StoredParamsValid EventsAddUp
 ACTION_CONSTRAINT Edge
